@@ -1907,6 +1907,8 @@ def tail_paths(b, start, res_local, max_paths=400, roots=None):
                 return v.clone(memo)
             if isinstance(v, tuple) and v and v[0] == 'discr':
                 return ('discr', cl(v[1]))
+            if isinstance(v, tuple) and v and v[0] == 'isvar':
+                return ('isvar', cl(v[1]), v[2], v[3])
             return v
         return {k: cl(v) for k, v in env.items()}
 
@@ -1973,6 +1975,14 @@ def tail_paths(b, start, res_local, max_paths=400, roots=None):
                     val = ENode(None, rv['adt'], rv.get('variant'), {i: eval_op(env, f) for i, f in enumerate(rv['fields'])})
                 elif rv['k'] == 'cast':
                     val = eval_op(env, rv['op'])
+                elif rv['k'] == 'un' and rv['op'] == 'Not':
+                    o_ = eval_op(env, rv['o'])
+                    if isinstance(o_, tuple) and o_ and o_[0] == 'isvar':
+                        val = ('isvar', o_[1], o_[2], not o_[3])
+                    elif isinstance(o_, tuple) and o_ and o_[0] == 'const' and o_[1] in (0, 1) and b.local_ty(pl['l']) == 'bool':
+                        val = ('const', 1 - o_[1], None)
+                    else:
+                        val = None
                 if not pl['p']:
                     env[pl['l']] = val
             t = blk['term']
@@ -2003,6 +2013,9 @@ def tail_paths(b, start, res_local, max_paths=400, roots=None):
                         env[t['dest']['l']] = ENode(org, enum_kind(b.local_ty(t['dest']['l'])))
                     elif p in ('core::mem::manually_drop::ManuallyDrop::<T>::into_inner',) or p.endswith('::into') or p.endswith('From<T>>::from'):
                         env[t['dest']['l']] = av[0] if av else None
+                    elif p in ('core::result::Result::<T, E>::is_ok', 'core::result::Result::<T, E>::is_err', 'core::option::Option::<T>::is_some', 'core::option::Option::<T>::is_none') and av and isinstance(av[0], ENode):
+                        # a boolean that says which variant the value has: a later switch on it teaches the path
+                        env[t['dest']['l']] = ('isvar', av[0], {'is_ok': 'Ok', 'is_err': 'Err', 'is_some': 'Some', 'is_none': 'None'}[p.split('::')[-1]], True)
                     elif p.endswith('as core::ops::try_trait::Try>::branch') and av and isinstance(av[0], ENode) and av[0].vname in ('Ok', 'Err', 'Some', 'None'):
                         # `x?`: Continue(payload) for Ok / Some, Break(residual) otherwise
                         x_ = av[0]
@@ -2040,6 +2053,22 @@ def tail_paths(b, start, res_local, max_paths=400, roots=None):
                 if isinstance(v, tuple) and v[0] == 'const' and v[1] is not None:
                     bb = dict((a, c) for a, c in t['targets']).get(v[1], t['otherwise'])
                     continue
+                if isinstance(v, tuple) and v[0] == 'isvar' and isinstance(v[1], ENode):
+                    node, vn, pol = v[1], v[2], v[3]
+                    other = {'Ok': 'Err', 'Err': 'Ok', 'Some': 'None', 'None': 'Some'}[vn]
+                    tg = dict((a, c) for a, c in t['targets'])
+                    true_bb = tg.get(1, t['otherwise'])
+                    false_bb = tg.get(0, t['otherwise'])
+                    if node.vname is not None:
+                        truth = (node.vname == vn) == pol
+                        bb = true_bb if truth else false_bb
+                        continue
+                    for truth, c in ((True, true_bb), (False, false_bb)):
+                        e2 = fork_env(env)
+                        v2 = eval_op(e2, t['d'])
+                        v2[1].vname = vn if truth == pol else other
+                        work.append((c, e2, list(calls), list(trace), seen))
+                    break
                 for a, c in t['targets']:
                     work.append((c, fork_env(env), list(calls), list(trace), seen))
                 bb = t['otherwise']
